@@ -41,7 +41,7 @@ var c01TokenFuncs = map[string]bool{"hasPrefix": true, "hasSuffix": true, "conta
 var c01RegexFuncs = map[string]bool{"matches": true, "match": true, "match1": true, "match2": true, "match3": true, "match4": true, "match5": true,
 	"replaceAll": true, "replaceAllFunc": true, "replaceOnce": true, "MustCompile": true, "Compile": true, "SkipRegexp": true, "NextRegexp": true, "TestRegexp": true, "matchn": true}
 
-var c01CheckerFiles = []string{"alternatives.go", "plist.go", "distinfo.go", "buildlink3.go", "category.go", "toplevel.go", "options.go", "pkglint.go", "patches.go", "package.go"}
+var c01CheckerFiles = []string{"alternatives.go", "plist.go", "distinfo.go", "buildlink3.go", "category.go", "toplevel.go", "options.go", "pkglint.go", "patches.go", "package.go", "vardefs.go", "pkgsrc.go", "tools.go"}
 
 func c01Lit(e ast.Expr) (string, bool) {
 	switch x := e.(type) {
@@ -370,7 +370,7 @@ func genC01Dict(src string) (string, string, error) {
 	var missing []string
 	for _, d := range dict.Deref {
 		cl := classified[d.File+"|"+d.Func+"|"+d.Expr]
-		if cl != "only-real-assignments" && cl != "nil-tested" {
+		if cl != "only-real-assignments" && cl != "nil-tested" && cl != "firstdef-under-isdefined" {
 			missing = append(missing, d.File+" "+d.Func+": "+d.Expr)
 		}
 	}
